@@ -738,10 +738,16 @@ package gedcom
 //@   inline
 //@   requires family != nil && individual != nil
 //@ func FamilyNode.AddChild
-//@   props C14
+//@   props C14 C13
 //@   safety
 //@   inline
 //@   requires node != nil && individual != nil
+//@   ghost nAdd int = 0
+//@   ghost nReset int = 0
+//@   oncall SimpleNode.AddNode do nAdd = nAdd + 1
+//@   oncall FamilyNode.resetDocumentCaches check after-the-edit: arg0 == node && nAdd == 1
+//@   oncall FamilyNode.resetDocumentCaches do nReset = nReset + 1
+//@   ensures individuals-forget: nAdd == 1 && nReset == 1
 //@ sweep C14: newNode, NewNode, FamilyNode.addChild, shallowCopyNode, SimpleNameFilter$1, RemoveDuplicateNamesFilter$1
 //@ sweep C14: FamilyNode.SetWifePointer, FamilyNode.SetHusbandPointer, Document.AddIndividual, Document.AddFamily
 //@ sweep C14: simpleDocumentNode.ShallowCopy
@@ -1143,12 +1149,13 @@ package gedcom
 
 // C02: AddNode appends: the children are the old children followed by n.
 //@ func SimpleNode.AddNode
-//@   props C02
+//@   props C02 C13
 //@   safety
 //@   requires node != nil
 //@   ensures grows: len(node.children) == old(len(node.children)) + 1
 //@   ensures last: node.children[len(node.children)-1] == n
 //@   ensures kept: forall(i, 0, old(len(node.children)), node.children[i] == old(node.children[i]))
+//@   ensures tag-view-reset: fresh(nodeCache)
 
 // ---------------------------------------------------------------------------
 // C01: the line reader is the inverse of the line writer. The language is what
@@ -1628,22 +1635,156 @@ package gedcom
 //@   oncall NewSurroundingSimilarity#2 do full = true
 //@   ensures neutral-without-pairs: implies(full && nPairs == 0, result != nil && result.ParentsSimilarity == 0.5)
 
-// C13 (b), one instance of "views reflect every edit": after the husband (or
-// wife) of a family has been removed, the cached view says so - it is marked
-// as computed and empty, so a later Husband() cannot hand back a stale node
-// from any other cache.
+// C13 (b), "views reflect every edit", as far as single operations go: every
+// edit operation of the API forgets the views that were derived from what it
+// edits. (That a forgotten view is recomputed from the current data is the
+// view's own code, by construction; that NO other path edits the data is not
+// decided - a family's HUSB / WIFE / CHIL lines can also be changed through
+// the generic AddNode / DeleteNode / SetNodes of the embedded SimpleNode, which
+// know nothing about the family's or the individuals' caches: see the known
+// finding in DESIGN.md.)
+//
+// 1. children of any node: adding, deleting and replacing children installs a
+// fresh children-by-tag cache (AddNode above).
+//@ func SimpleNode.DeleteNode
+//@   props C13
+//@   ensures tag-view-reset: fresh(nodeCache)
+//@ func SimpleNode.SetNodes
+//@   props C13
+//@   requires node != nil
+//@   ensures replaced: node.children == nodes
+//@   ensures tag-view-reset: fresh(nodeCache)
+//
+// 2. root records: deleting one rebuilds the pointer lookup from the remaining
+// roots (after the removal), forgets the list of families and resets what the
+// individuals and families remember about each other.
+//@ func Nodes.deleteNode
+//@   props C13
+//@   safety
+//@   loop 1 invariant scanning: rangeindex < len(nodes)
+//@   ensures not-found: implies(!result1, result0 == nodes)
+//@   ensures one-fewer: implies(result1, len(result0) == len(nodes) - 1)
+//@   assigns E.gedcom.Node[arr(nodes)], alloc
+//@ func Document.DeleteNode
+//@   props C13
+//@   requires doc != nil
+//@   requires nonnil: forall(i, 0, len(doc.nodes), doc.nodes[i] != nil)
+//@   ghost remaining slice
+//@   ghost rebuilt int = 0
+//@   ghost reset int = 0
+//@   oncall Nodes.deleteNode check the-roots: arg0 == old(doc.nodes) && arg1 == node
+//@   oncall Nodes.deleteNode do remaining = result0
+// (assumed, the solvers do not get through the shifted-elements argument: what
+// is left after deleting are elements that were there, hence still not nil)
+//@   oncall Nodes.deleteNode assume elements-were-there: forall(i, 0, len(result0), result0[i] != nil)
+//@   oncall Document.buildPointerCache check after-the-removal: arg0 == doc && doc.nodes == remaining
+//@   oncall Document.buildPointerCache do rebuilt = rebuilt + 1
+//@   oncall Document.resetCaches check own-document: arg0 == doc
+//@   oncall Document.resetCaches do reset = reset + 1
+//@   ensures removed: doc.nodes == remaining
+//@   ensures views-forgotten: implies(result, rebuilt >= 1 && reset >= 1 && doc.families == nil)
+//@ func Document.resetCaches
+//@   props C13
+//@   requires doc != nil
+//@   assigns H.gedcom.IndividualNode.cachedFamilies, H.gedcom.IndividualNode.cachedSpouses, H.gedcom.IndividualNode.families, H.gedcom.IndividualNode.spouses, H.gedcom.IndividualNode.cachedUniqueIDs, H.gedcom.FamilyNode.cachedHusband, H.gedcom.FamilyNode.cachedWife, H.gedcom.FamilyNode.husband, H.gedcom.FamilyNode.wife
+//@   ghost nI int = 0
+//@   ghost nF int = 0
+//@   oncall IndividualNode.resetCache check that-record: typeis(node, "*gedcom.IndividualNode") && arg0 == data(node)
+//@   oncall IndividualNode.resetCache do nI = nI + 1
+//@   oncall FamilyNode.resetCache check that-record: typeis(node, "*gedcom.FamilyNode") && arg0 == data(node)
+//@   oncall FamilyNode.resetCache do nF = nF + 1
+//@   loop 1 iter every-record: (nI - old(nI)) == ite(typeis(node, "*gedcom.IndividualNode"), 1, 0) && (nF - old(nF)) == ite(typeis(node, "*gedcom.FamilyNode"), 1, 0)
+//@   loop 1 nobreak
+//@ func IndividualNode.resetCache
+//@   props C13
+//@   ensures forgets: implies(node != nil, !node.cachedFamilies && !node.cachedSpouses && node.cachedUniqueIDs == nil)
+//@   assigns H.gedcom.IndividualNode.cachedFamilies, H.gedcom.IndividualNode.cachedSpouses, H.gedcom.IndividualNode.families, H.gedcom.IndividualNode.spouses, H.gedcom.IndividualNode.cachedUniqueIDs
+//@ func FamilyNode.resetCache
+//@   props C13
+//@   ensures forgets: implies(node != nil, !node.cachedHusband && !node.cachedWife)
+//@   assigns H.gedcom.FamilyNode.cachedHusband, H.gedcom.FamilyNode.cachedWife, H.gedcom.FamilyNode.husband, H.gedcom.FamilyNode.wife
+//
+// 3. husband, wife and children of a family: the individuals remember their
+// families and spouses, so every such edit resets the document's caches, and
+// does so AFTER the line was added or removed.
+//@ func FamilyNode.resetDocumentCaches
+//@   props C13
+//@   ghost n int = 0
+//@   oncall Document.resetCaches do n = n + 1
+//@   ensures resets: implies(node != nil && node.document != nil, n == 1)
+//@   assigns H.gedcom.IndividualNode.cachedFamilies, H.gedcom.IndividualNode.cachedSpouses, H.gedcom.IndividualNode.families, H.gedcom.IndividualNode.spouses, H.gedcom.IndividualNode.cachedUniqueIDs, H.gedcom.FamilyNode.cachedHusband, H.gedcom.FamilyNode.cachedWife, H.gedcom.FamilyNode.husband, H.gedcom.FamilyNode.wife
+// (FamilyNode.AddChild: the same three clauses sit on its C14 contract above.)
+//@ func FamilyNode.addChild
+//@   props C13
+//@   ghost nAdd int = 0
+//@   ghost nReset int = 0
+//@   oncall SimpleNode.AddNode do nAdd = nAdd + 1
+//@   oncall FamilyNode.resetDocumentCaches check after-the-edit: arg0 == node && nAdd == 1
+//@   oncall FamilyNode.resetDocumentCaches do nReset = nReset + 1
+//@   ensures individuals-forget: nAdd == 1 && nReset == 1
+//@ func FamilyNode.SetHusbandPointer
+//@   props C13
+//@   ghost nAdd int = 0
+//@   ghost nReset int = 0
+//@   oncall SimpleNode.AddNode do nAdd = nAdd + 1
+//@   oncall FamilyNode.resetDocumentCaches check after-the-edit: arg0 == node && nAdd == 1
+//@   oncall FamilyNode.resetDocumentCaches do nReset = nReset + 1
+//@   ensures individuals-forget: nAdd == 1 && nReset == 1
+//@   ensures view-forgotten: !node.cachedHusband
+//@ func FamilyNode.SetWifePointer
+//@   props C13
+//@   ghost nAdd int = 0
+//@   ghost nReset int = 0
+//@   oncall SimpleNode.AddNode do nAdd = nAdd + 1
+//@   oncall FamilyNode.resetDocumentCaches check after-the-edit: arg0 == node && nAdd == 1
+//@   oncall FamilyNode.resetDocumentCaches do nReset = nReset + 1
+//@   ensures individuals-forget: nAdd == 1 && nReset == 1
+//@   ensures view-forgotten: !node.cachedWife
+//
+// When the husband (or wife) of a family is removed, the family's own cached
+// view says so - computed and empty, so a later Husband() cannot hand back a
+// stale node - and the document's caches are reset after the line is gone.
 //@ func FamilyNode.SetHusband
 //@   props C13
 //@   ghost removed bool = false
+//@   ghost nReset int = 0
 //@   opaque FamilyNode.Husband, HusbandNode.Individual, IndividualNode.*, DeleteNodesWithTag, NewNode, simpleDocumentNode.*, SimpleNode.*, FamilyNode.SetHusbandPointer, IsNil
 //@   oncall DeleteNodesWithTag do removed = true
+//@   oncall FamilyNode.resetDocumentCaches check after-the-edit: arg0 == node && removed
+//@   oncall FamilyNode.resetDocumentCaches do nReset = nReset + 1
 //@   ensures view-cleared: implies(removed, node.cachedHusband && node.husband == nil)
+//@   ensures individuals-forget: implies(removed, nReset >= 1)
 //@ func FamilyNode.SetWife
 //@   props C13
 //@   ghost removed bool = false
+//@   ghost nReset int = 0
 //@   opaque FamilyNode.Wife, WifeNode.Individual, IndividualNode.*, DeleteNodesWithTag, NewNode, simpleDocumentNode.*, SimpleNode.*, FamilyNode.SetWifePointer, IsNil
 //@   oncall DeleteNodesWithTag do removed = true
+//@   oncall FamilyNode.resetDocumentCaches check after-the-edit: arg0 == node && removed
+//@   oncall FamilyNode.resetDocumentCaches do nReset = nReset + 1
 //@   ensures view-cleared: implies(removed, node.cachedWife && node.wife == nil)
+//@   ensures individuals-forget: implies(removed, nReset >= 1)
+//
+// Adding an individual resets every individual's caches, adding a family every
+// family's (the code's own "easy option").
+//@ func Document.AddIndividual
+//@   props C13
+//@   ghost nReset int = 0
+//@   ghost nAdd int = 0
+//@   oncall Document.AddNode do nAdd = nAdd + 1
+//@   oncall IndividualNode.resetCache check after-the-edit: nAdd == 1
+//@   oncall IndividualNode.resetCache do nReset = nReset + 1
+//@   loop 1 iter every-individual: nReset == old(nReset) + 1
+//@   loop 1 nobreak
+//@ func Document.AddFamily
+//@   props C13
+//@   ghost nReset int = 0
+//@   ghost nAdd int = 0
+//@   oncall Document.AddNode do nAdd = nAdd + 1
+//@   oncall FamilyNode.resetCache check after-the-edit: nAdd == 1
+//@   oncall FamilyNode.resetCache do nReset = nReset + 1
+//@   loop 1 iter every-family: nReset == old(nReset) + 1
+//@   loop 1 nobreak
 
 // C05: the earliest / latest of several dates. Minimum returns an element whose
 // start (on the Years scale, C05) is not after any other element's start, nil
